@@ -10,7 +10,7 @@ PROP = 'C07'
 VARIANTS = ['apply', 'map']
 REPLAYERS = {q: 'replayers/close_join.py' for q in (
     'pool.Pool.join', 'pool.Pool.close', 'pool.TaskHandler.tell_others', 'pool.Worker._ensure_messages_consumed',
-    'pool.ResultHandler._make_methods.<locals>.on_ready')}
+    'pool.ResultHandler._make_methods.<locals>.on_ready', 'pool.ResultHandler.finish_at_shutdown')}
 REPLAYERS['pool.Pool.apply_async'] = 'replayers/apply_async_slot.py'
 REPLAYERS['pool.Pool._join_exited_workers'] = 'replayers/join_exited.py'
 
@@ -18,6 +18,9 @@ ASSUMPTIONS = [
     'thread.join()/stop and Process.join() return when the thread/process has ended (assumed); the order in which join() '
     'stops the helpers is what is proved',
     'A-atomic (handler granularity); queue puts of the sentinels do not fail except with IOError',
+    'finish_at_shutdown: poll (a message, an extra sentinel, nothing, or IOError/EOFError), the dispatcher, the tick and the '
+    'time-limit check are assumed contracts that can only remove jobs from the cache; the last block (making room in the '
+    'outqueue for the sentinels) is under a statement contract: it touches neither the cache nor the handler',
     'the parent only ever increments a worker\'s on_ready_counter (loop-head havoc of Counter.value constrained to be monotone)',
 ]
 OUT_OF_REACH = [
@@ -26,6 +29,107 @@ OUT_OF_REACH = [
     'imap handles: crediting is not under contract (their owner list has no index); for map handles the clause is generated '
     'and refuted (D7, known finding)',
 ]
+
+
+def shutdown_drain_contract(w):
+    """ResultHandler.finish_at_shutdown: keeps dispatching results until the cache is empty"""
+    g = w.classes['g']
+    g.fields.update({'polls': IntS, 'tasks_read': IntS, 'dispatched': IntS, 'ticks': IntS, 'timeout_checks': IntS,
+                     'extra_sentinels': IntS, 'poll_failed': BoolS, 'all_joined_at': opt(RealS), 'now': RealS})
+    w.cls('RHS', module='pool', pyname='ResultHandler', fields={
+        'outqueue': ValS, 'get': ValS, 'cache': dict_of(IntS, ref('Job')), 'poll': ValS, 'join_exited_workers': ValS,
+        '_shutdown_complete': BoolS, 'check_timeouts': opt(ValS), 'on_state_change': ValS, '_state': IntS})
+
+    def call(ex, args, kw):
+        me = ex.root.scopes[0]['self']
+        fn = args[0]
+
+        def is_(field):
+            v = ex.path.read_field(me, field)
+            if isinstance(v, SOpt):
+                return ex.path.decide(z3.And(z3.Not(v.isnone), fn.e == v.val.e))
+            return ex.path.decide(fn.e == v.e)
+        if is_('poll'):
+            gset(ex, 'polls', SV(IntS, gget(ex, 'polls').e + 1))
+            k = ex.path.choose(4)
+            if k == 0:
+                gset(ex, 'poll_failed', mk_bool(True))
+                raise_exc(ex, 'OSError' if ex.path.choose(2) == 0 else 'EOFError')
+            if k == 1:
+                return STup([mk_bool(False), SNone()])
+            if k == 2:
+                gset(ex, 'extra_sentinels', SV(IntS, gget(ex, 'extra_sentinels').e + 1))
+                return STup([mk_bool(True), SNone()])
+            gset(ex, 'tasks_read', SV(IntS, gget(ex, 'tasks_read').e + 1))
+            task = SV(ValS, z3.Const(fresh_name('task'), Val))
+            ex.path.assume(task.e != z3.Const('NoneVal', Val))        # (None is the sentinel: the case above)
+            return STup([mk_bool(True), task])
+        if is_('on_state_change'):
+            # the handlers proved in C01/C03: they resolve jobs, which removes them from the cache
+            prove(ex, 'dispatch.every_message_read_is_dispatched_once', gget(ex, 'dispatched').e == gget(ex, 'tasks_read').e - 1)
+            gset(ex, 'dispatched', SV(IntS, gget(ex, 'dispatched').e + 1))
+            havoc_cache(ex, me)
+            return SNone()
+        if is_('join_exited_workers'):
+            prove(ex, 'tick.told_that_the_pool_is_shutting_down', kw.get('shutdown', mk_bool(False)).e)
+            gset(ex, 'ticks', SV(IntS, gget(ex, 'ticks').e + 1))
+            havoc_cache(ex, me)                 # jobs of lost workers are failed by the tick (C04)
+            if ex.path.choose(2) == 1:
+                j = gget(ex, 'all_joined_at')
+                if ex.path.decide(j.isnone):
+                    gset(ex, 'all_joined_at', gget(ex, 'now'))
+                raise_exc(ex, 'WorkersJoined')
+            return SNone()
+        if is_('check_timeouts'):
+            gset(ex, 'timeout_checks', SV(IntS, gget(ex, 'timeout_checks').e + 1))
+            havoc_cache(ex, me)                 # a job past its hard limit is failed (C05)
+            return SNone()
+        raise Unsupported('finish_at_shutdown calls an unknown callable')
+
+    def havoc_cache(ex, me):
+        cache = ex.path.read_field(me, 'cache')
+        has = ex.path.read_field(cache, 'has')
+        nh = has.shape.fresh('has_after')
+        k = z3.Int(fresh_name('k'))
+        ex.path.assume(z3.ForAll([k], z3.Implies(nh.shape.select(nh, SV(IntS, k)).e, has.shape.select(has, SV(IntS, k)).e)))
+        size = IntS.fresh('size_after')
+        ex.path.assume(z3.And(size.e >= 0, size.e <= ex.path.read_field(cache, 'size').e))
+        ex.path.write_field(cache, 'has', nh)
+        ex.path.write_field(cache, 'size', size)
+    counts = ('g.dispatched == g.tasks_read and g.ticks == g.polls - g.extra_sentinels and '
+              '(self.check_timeouts is None or g.timeout_checks == g.polls)')
+    return Contract(
+        'pool.ResultHandler.finish_at_shutdown', prop=PROP, params={'self': ref('RHS'), 'handle_timeouts': BoolS},
+        externals={'<callable>': call, 'pool.debug': noop, 'time.monotonic': ps.ext_monotonic, 'pool.monotonic': ps.ext_monotonic},
+        requires={'wf': 'allocated(self.cache) and len(self.cache) >= 0 and g.now > 0',
+                  'fresh': 'g.polls == 0 and g.tasks_read == 0 and g.dispatched == 0 and g.ticks == 0 and g.timeout_checks == 0 '
+                           'and g.extra_sentinels == 0 and not g.poll_failed and g.all_joined_at is None',
+                  'distinct_callables': 'self.poll != self.on_state_change and self.poll != self.join_exited_workers and '
+                                        'self.on_state_change != self.join_exited_workers and '
+                                        '(self.check_timeouts is None or (val(self.check_timeouts) != self.poll and '
+                                        'val(self.check_timeouts) != self.on_state_change and '
+                                        'val(self.check_timeouts) != self.join_exited_workers))'},
+        modifies=['g.*', 'self.cache.*', 'self._shutdown_complete'],
+        blocks=[{'label': 'making room in the outqueue for the sentinels', 'first': "if hasattr(outqueue, '_reader'):",
+                 'last': "if hasattr(outqueue, '_reader'):", 'assigns': {'i': IntS}, 'raises': []}],
+        loops={0: {'inv': {'wf': 'allocated(self.cache) and len(self.cache) >= 0 and g.now > 0 and self._shutdown_complete',
+                           'counts': counts, 'still_connected': 'not g.poll_failed',
+                           'first_all_joined': '(time_terminate is None) == (g.all_joined_at is None) and '
+                                               'implies(time_terminate is not None, val(time_terminate) >= val(g.all_joined_at) '
+                                               'and val(g.all_joined_at) > 0)'},
+                   'modifies': ['g.*', 'self.cache.*'],
+                   'locals': {'time_terminate': opt(RealS), 'ready': BoolS, 'task': opt(ValS), 'now': RealS}}},
+        ensures={
+            'marks_the_shutdown': 'self._shutdown_complete',
+            # C07: the result handler keeps draining until the cache is empty
+            'drains_until_every_job_has_its_result': 'len(self.cache) == 0 or self._state == 2 or g.poll_failed or '
+                                                     '(g.all_joined_at is not None and g.now - val(g.all_joined_at) > 5)',
+            'every_message_read_is_dispatched': 'g.dispatched == g.tasks_read',
+            'lost_workers_and_time_limits_still_watched_while_draining':
+                'implies(not g.poll_failed, g.ticks == g.polls - g.extra_sentinels) and '
+                '(self.check_timeouts is None or g.timeout_checks == g.polls)',
+        },
+    )
 
 
 def noop(ex, args, kw):
@@ -224,7 +328,7 @@ def build(w, variant='apply'):
     reap.ensures = dict(reap.ensures, registries_stay_the_shared_objects=(
         'self._on_ready_counters == old(self._on_ready_counters) and self._poolctrl == old(self._poolctrl) and '
         'self._pool == old(self._pool) and self._cache == old(self._cache)'))
-    return [ps.apply_async_contract(PROP), close, join, tell, consumed, on_ready, reap]
+    return [ps.apply_async_contract(PROP), close, join, tell, consumed, on_ready, reap, shutdown_drain_contract(w)]
 
 
 MANIFEST_ENTRY = {
@@ -236,7 +340,11 @@ MANIFEST_ENTRY = {
             'unless the pipe fails; the result handler credits every result to the counter of the worker that accepted the job, '
             'and an exiting worker does not sleep once the counter has reached its number of completed jobs and waits at most 300 '
             'retries otherwise; reaping exited workers (_join_exited_workers, C04 contract) never replaces the registries the '
-            'result handler and the supervisor share with the pool (the seeded change C07-a).',
+            'result handler and the supervisor share with the pool (the seeded change C07-a).  ResultHandler.finish_at_shutdown '
+            '(loop invariant over any number of rounds): it returns only when the cache is empty, the pool is terminating, the '
+            'result pipe failed, or more than 5 s on the clock have passed since the tick first reported that all workers are '
+            'gone; every message read in the meantime is dispatched exactly once, extra sentinels are skipped, and lost workers '
+            '(the tick, told that the pool is shutting down) and time limits are still watched in every round.',
     'note': 'Liveness (join() returns) and OS-level reaping are outside contracts: reduced to the order of stop/join calls and to '
             'the sentinel counts.  The crediting clause is also generated for map handles (variant map): there it is refuted -- the '
             'counter of the first owner of the handle is credited, not the sender\'s (D7: KNOWN-FINDING with replay; 31 s join '
